@@ -98,3 +98,24 @@ Proof.
   - unfold revealed_of, mask_of. apply idx_mask_roundtrip; auto.
     rewrite Forall_forall in *. intros r Hr. specialize (Hb r Hr). lia.
 Qed.
+
+(* ---------- the Tink wrapper ---------- *)
+Lemma bytes_eqb_eq : forall a b, bytes_eqb a b = true -> a = b.
+Proof.
+  unfold bytes_eqb. induction a as [|x a IH]; intros [|y b] H; cbn in H; try discriminate; auto.
+  apply andb_true_iff in H. destruct H as [Hl H]. apply andb_true_iff in H. destruct H as [Hxy H].
+  apply N.eqb_eq in Hxy. subst y. f_equal. apply IH. rewrite Hl, H. reflexivity.
+Qed.
+
+Lemma wrapped_accept_lemma : forall k kp bytes inner,
+  wrapped_verify k kp bytes inner = VAccept ->
+  5 <= length bytes /\
+  ((k = PRaw /\ inner bytes = VAccept) \/
+   (k <> PRaw /\ firstn 5 bytes = kp /\ inner (skipn 5 bytes) = VAccept)).
+Proof.
+  intros k kp bytes inner H. unfold wrapped_verify in H.
+  destruct (Nat.ltb_spec (length bytes) 5) as [Hlt|Hge]; [discriminate|]. split; [exact Hge|].
+  destruct k; [left; auto| | |];
+    (destruct (bytes_eqb (firstn 5 bytes) kp) eqn:E; [|discriminate];
+     apply bytes_eqb_eq in E; right; repeat split; auto; discriminate).
+Qed.
